@@ -614,8 +614,8 @@ type gated struct {
 	inClose   int           // Close calls in progress
 	closeGate chan struct{} // nil: Close is instantaneous; else Close returns once this is closed
 	returned  []int         // items returned by Next
-	ended     bool  // Next returned End
-	erred     int   // injected error returned by Next (0 = none)
+	ended     bool          // Next returned End
+	erred     int           // injected error returned by Next (0 = none)
 	nextAfter bool
 	overlap   bool // Next/Close or Next/Next running concurrently
 	onErr     func(id int)
